@@ -26,8 +26,17 @@ inductive ItemErr where
   | numArgsTooLarge
   deriving DecidableEq, Repr
 
-/-- `format::Error` (the variants reachable after the header) -/
+/-- `format::HeaderError`: the magic check of the framing, or one of the `Malformed*` results of
+the external JSON/field parsers (identified by an opaque code). -/
+inductive HeaderErr where
+  | wrongMagic
+  | malformed (code : Nat)
+  deriving DecidableEq, Repr
+
+/-- `format::Error` -/
 inductive Err where
+  | header (e : HeaderErr)
+  | unknownVersion
   | item (e : ItemErr)
   | tickOverflow
   | unexpectedEnd
@@ -47,7 +56,7 @@ inductive PR (α : Type) where
   | needMore
   | err (e : ItemErr)
   | ok (x : α) (rest : List UInt8)
-  deriving Repr
+  deriving Repr, DecidableEq
 
 abbrev Parser (α : Type) := List UInt8 → PR α
 
@@ -438,9 +447,16 @@ def Buffer.empty : Buffer := { offset := 0, unread := [], cap := 0 }
 /-- `self.buffer.len()` -/
 def Buffer.len (b : Buffer) : Nat := b.offset + b.unread.length
 
-/-- The read callback: the bytes it has not delivered yet and the sizes it is going to return.
-Each call pops one size `d` and delivers `min d space remaining` bytes (possibly `Some(0)`); when
-the list is exhausted it delivers as much as fits, and `None` (EOF) once nothing is left.  Every
+/-- What the read callback does at one invocation: return (up to) `d` bytes, or fail
+(`Err(e)` of `Callback::read_at_most`, an I/O error in `file.rs`). -/
+inductive CbEv where
+  | size (d : Nat)
+  | fail
+  deriving DecidableEq, Repr
+
+/-- The read callback: the bytes it has not delivered yet and what it is going to do at its next
+invocations.  `size d` delivers `min d space remaining` bytes (possibly `Some(0)`); when the list
+is exhausted the callback delivers as much as fits, and `None` (EOF) once nothing is left.  Every
 callback behaviour whose read results concatenate to the stream is of this form (see
 `Cb.ofChunks`).
 
@@ -449,26 +465,38 @@ EOF, so once nothing is left a *data* read (`d ≠ 0`) reports `None` at once, w
 `ErrorKind::Interrupted`, which is passed on as `Some(0)`. -/
 structure Cb where
   rem : List UInt8
-  ds : List Nat
+  ds : List CbEv
   strictEof : Bool := false
   deriving Repr
 
-def Cb.read (c : Cb) (space : Nat) : Option (List UInt8) × Cb :=
+inductive CbRes where
+  | data (bytes : List UInt8) (c : Cb)
+  | eof
+  | fail
+
+def Cb.read (c : Cb) (space : Nat) : CbRes :=
   match c.ds with
-  | d :: ds' =>
-    if c.strictEof = true ∧ d ≠ 0 ∧ c.rem.isEmpty = true then (none, c)
+  | .fail :: _ => .fail
+  | .size d :: ds' =>
+    if c.strictEof = true ∧ d ≠ 0 ∧ c.rem.isEmpty = true then .eof
     else
       let n := min d (min space c.rem.length)
-      (some (c.rem.take n), { c with rem := c.rem.drop n, ds := ds' })
+      .data (c.rem.take n) { c with rem := c.rem.drop n, ds := ds' }
   | [] =>
-    if c.rem.isEmpty then (none, c)
+    if c.rem.isEmpty then .eof
     else
       let n := min space c.rem.length
-      (some (c.rem.take n), { c with rem := c.rem.drop n, ds := [] })
+      .data (c.rem.take n) { c with rem := c.rem.drop n, ds := [] }
 
 /-- A fragmentation given explicitly: the list of read results (empty ones allowed) whose
 concatenation is the stream; after the last one the callback reports EOF. -/
-def Cb.ofChunks (cs : List (List UInt8)) : Cb := { rem := cs.flatten, ds := cs.map List.length }
+def Cb.ofChunks (cs : List (List UInt8)) : Cb :=
+  { rem := cs.flatten, ds := cs.map fun ch => .size ch.length }
+
+/-- The callback never fails. -/
+def Cb.noFail (c : Cb) : Prop := CbEv.fail ∉ c.ds
+
+instance (c : Cb) : Decidable c.noFail := by unfold Cb.noFail; infer_instance
 
 /-- The first step of `Buffer::read_more` when the vector is full: compaction
 (`drain(0..offset)`) if something has been consumed, else growth (`reserve` of `BUFFER_SIZE`, or
@@ -480,16 +508,25 @@ def Buffer.makeRoom (b : Buffer) : Buffer :=
   else
     { b with cap := b.len + (if b.len < Gen.Teehistorian.BUFFER_SIZE then Gen.Teehistorian.BUFFER_SIZE else b.len) }
 
-/-- `Buffer::read_more`; `none` = `Err(UnexpectedEnd)` (the callback reported EOF). -/
-def readMore (b : Buffer) (c : Cb) : Option (Buffer × Cb) :=
+inductive More where
+  | more (b : Buffer) (c : Cb)
+  /-- the callback reported EOF: `Err(UnexpectedEnd)` -/
+  | eof
+  /-- the callback failed: `Err(Error::Cb(e))` -/
+  | fail
+
+/-- `Buffer::read_more` -/
+def readMore (b : Buffer) (c : Cb) : More :=
   let b' := b.makeRoom
   match c.read (b'.cap - b'.len) with
-  | (none, _) => none
-  | (some bytes, c') => some ({ b' with unread := b'.unread ++ bytes }, c')
+  | .eof => .eof
+  | .fail => .fail
+  | .data bytes c' => .more { b' with unread := b'.unread ++ bytes } c'
 
 inductive LoopRes (α : Type) where
   | ok (x : α) (b : Buffer) (c : Cb)
   | err (e : Err)
+  | cbErr
   | outOfFuel
 
 /-- `Buffer::read_kind` / `Buffer::read_item` / the loop of `Reader::new_impl`: parse from the
@@ -502,21 +539,40 @@ def parseLoop {α : Type} (p : Parser α) : Nat → Buffer → Cb → LoopRes α
     | .err e => .err (.item e)
     | .needMore =>
       match readMore b c with
-      | none => .err .unexpectedEnd
-      | some (b', c') => parseLoop p fuel b' c'
+      | .eof => .err .unexpectedEnd
+      | .fail => .cbErr
+      | .more b' c' => parseLoop p fuel b' c'
 
 /-- Number of callback invocations that can still succeed. -/
 def Cb.measure (c : Cb) : Nat := c.ds.length + c.rem.length
 
-/-- `read_header` on a fixed valid header of `hl` bytes (contract of the external parser). -/
-def pHeader (hl : Nat) : Parser Unit := fun inp =>
-  if inp.length < hl then .needMore else .ok () (inp.drop hl)
+/-- What reading the header yields once its framing is complete. -/
+inductive HeaderRes where
+  | version (v : Int)
+  | bad (e : HeaderErr)
+  deriving DecidableEq, Repr
+
+/-- The magic bytes (`format::UUID`, generated). -/
+def magic : List UInt8 := Gen.Teehistorian.MAGIC.map UInt8.ofNat
+
+/-- `raw::read_header`: the framing of the header — 16 magic bytes (`read_magic`; a wrong magic is
+an error as soon as 16 bytes are there), then a NUL-terminated string (`read_string`) — with the
+content parsers (serde_json, chrono, uuid, `str::parse`) as the parameter `json`, which maps the
+header text to the `version` field or to a `Malformed*` code. -/
+def pHeader (json : List UInt8 → Except Nat Int) : Parser HeaderRes :=
+  (pRaw Gen.Teehistorian.MAGIC_LEN).andThen fun m =>
+    if m ≠ magic then Parser.pure (.bad .wrongMagic)
+    else pStr.andThen fun text =>
+      Parser.pure (match json text with
+        | .ok v => .version v
+        | .error code => .bad (.malformed code))
 
 inductive ReadRes where
   | item (it : Item) (rd : Reader) (b : Buffer) (c : Cb)
   | finished (rd : Reader)
   | err (e : Err) (rd : Reader)
   | oom (rd : Reader)
+  | cbErr (rd : Reader)
   | outOfFuel
 
 /-- `Reader::read` from the point where the item kind is known (`rd.nextKind` has been taken). -/
@@ -527,6 +583,7 @@ def Reader.readWithKind (cfg : Cfg) (rd : Reader) (k : Kind) (b : Buffer) (c : C
   | .proceed =>
     match parseLoop (parseRest k) (c.measure + 1) b c with
     | .err e => .err e rd
+    | .cbErr => .cbErr rd
     | .outOfFuel => .outOfFuel
     | .ok fit b c =>
       match rd.post cfg fit with
@@ -542,6 +599,7 @@ def Reader.read (cfg : Cfg) (rd : Reader) (b : Buffer) (c : Cb) : ReadRes :=
   | none =>
     match parseLoop (parseKind cfg.hasEx) (c.measure + 1) b c with
     | .err e => .err e { rd with nextKind := none }
+    | .cbErr => .cbErr { rd with nextKind := none }
     | .outOfFuel => .outOfFuel
     | .ok k b c => Reader.readWithKind cfg { rd with nextKind := none } k b c
 
@@ -551,6 +609,8 @@ inductive Final where
   | finished
   | err (e : Err)
   | oom
+  /-- the read callback failed: `Error::Cb(e)` / `Error::Io(e)` -/
+  | cbErr
   | outOfFuel
   deriving DecidableEq, Repr
 
@@ -572,43 +632,62 @@ def runItems (cfg : Cfg) : Nat → Reader → Buffer → Cb → Output
     | .finished rd' => ⟨[], .finished, rd'.cidsEnd⟩
     | .err e rd' => ⟨[], .err e, rd'.cidsEnd⟩
     | .oom rd' => ⟨[], .oom, rd'.cidsEnd⟩
+    | .cbErr rd' => ⟨[], .cbErr, rd'.cidsEnd⟩
     | .outOfFuel => ⟨[], .outOfFuel, rd.cidsEnd⟩
 
 /-- Enough `Reader::read` calls for a stream of `n` bytes: every item kind costs at least one
 byte and leads to at most four calls. -/
 def readFuel (n : Nat) : Nat := 4 * n + 8
 
-/-- `Reader::new` (header of `hl` bytes) followed by `read` until the end, for a given callback. -/
-def runCb (cfg : Cfg) (hl : Nat) (c : Cb) : Output :=
-  match parseLoop (pHeader hl) (c.measure + 1) Buffer.empty c with
+/-- The environment of a whole reading: the external header-content parser and the number of
+`VecMap` slots the machine can allocate. -/
+structure Env where
+  json : List UInt8 → Except Nat Int
+  memCids : Nat
+
+/-- `Reader::from_header` -/
+def Env.cfgOf (env : Env) (v : Int) : Option Cfg :=
+  if v = 1 then some { hasEx := false, memCids := env.memCids }
+  else if v = 2 then some { hasEx := true, memCids := env.memCids }
+  else none
+
+/-- `Reader::new` followed by `read` until the end, for a given callback. -/
+def runCb (env : Env) (c : Cb) : Output :=
+  match parseLoop (pHeader env.json) (c.measure + 1) Buffer.empty c with
   | .err e => ⟨[], .err e, 0⟩
+  | .cbErr => ⟨[], .cbErr, 0⟩
   | .outOfFuel => ⟨[], .outOfFuel, 0⟩
-  | .ok _ b c' => runItems cfg (readFuel c.rem.length) Reader.empty b c'
+  | .ok (.bad e) _ _ => ⟨[], .err (.header e), 0⟩
+  | .ok (.version v) b c' =>
+    match env.cfgOf v with
+    | none => ⟨[], .err .unknownVersion, 0⟩
+    | some cfg => runItems cfg (readFuel c.rem.length) Reader.empty b c'
 
-/-- … the callback returning the read sizes `ds`.  `total` is the whole byte stream, header
-included. -/
-def run (cfg : Cfg) (hl : Nat) (total : List UInt8) (ds : List Nat) : Output :=
-  runCb cfg hl { rem := total, ds := ds }
+/-- … the callback returning the read sizes `ds`.  `total` is the whole file, header included. -/
+def run (env : Env) (total : List UInt8) (ds : List Nat) : Output :=
+  runCb env { rem := total, ds := ds.map CbEv.size }
 
-/-- What `File::read` does when `file.rs` calls it: deliver between 1 and `atMost + 1` bytes
-(`Ok(0)` when nothing is left), or fail with `ErrorKind::Interrupted`.  (Other I/O errors end the
-reading with `Error::Io` and are outside the model.) -/
+/-- One `read(2)` on the file as `file.rs` issues it (`count` = free buffer space > 0): the kernel
+returns between 1 and `n` bytes — never 0 unless the file is at its end, which is why `n` is
+positive by construction —, or fails with `EINTR`, or fails with another error. -/
 inductive OsRead where
-  | data (atMost : Nat)
-  | interrupted
-  deriving Repr, DecidableEq
+  | data (n : Nat) (pos : 0 < n)
+  | eintr
+  | eio
 
-def OsRead.size : OsRead → Nat
-  | .data n => n + 1
-  | .interrupted => 0
+def OsRead.ev : OsRead → CbEv
+  | .data n _ => .size n
+  | .eintr => .size 0
+  | .eio => .fail
 
-/-- `file.rs`: `CallbackData::read_at_most` over a file that behaves as `evs` says. -/
+/-- `file.rs`: `CallbackData::read_at_most` over a file that behaves as `evs` says: `Ok(0)` is
+EOF, `Ok(n)` is `Some(n)`, `ErrorKind::Interrupted` is `Some(0)`, any other error is passed on. -/
 def fileCb (total : List UInt8) (evs : List OsRead) : Cb :=
-  { rem := total, ds := evs.map OsRead.size, strictEof := true }
+  { rem := total, ds := evs.map OsRead.ev, strictEof := true }
 
 /-- The public `Reader` (`file.rs`): `Reader::new`/`open`, then `read` until `Ok(None)`/`Err`. -/
-def runFile (cfg : Cfg) (hl : Nat) (total : List UInt8) (evs : List OsRead) : Output :=
-  runCb cfg hl (fileCb total evs)
+def runFile (env : Env) (total : List UInt8) (evs : List OsRead) : Output :=
+  runCb env (fileCb total evs)
 
 /-! ### Reference semantics without buffer: the stream as a list of records -/
 
@@ -711,5 +790,17 @@ def interp (cfg : Cfg) (rd : Reader) : List Rec → Tail → Output
 def runWhole (cfg : Cfg) (s : List UInt8) : Output :=
   let r := parseAll cfg.hasEx (s.length + 1) s
   interp cfg Reader.empty r.1 r.2
+
+/-- What reading the whole file `total` (header included) yields, independent of any buffer:
+the header framing is parsed on the complete byte string. -/
+def reference (env : Env) (total : List UInt8) : Output :=
+  match pHeader env.json total with
+  | .needMore => ⟨[], .err .unexpectedEnd, 0⟩
+  | .err e => ⟨[], .err (.item e), 0⟩   -- not reached: the header parser has no `err` result
+  | .ok (.bad e) _ => ⟨[], .err (.header e), 0⟩
+  | .ok (.version v) rest =>
+    match env.cfgOf v with
+    | none => ⟨[], .err .unknownVersion, 0⟩
+    | some cfg => runWhole cfg rest
 
 end Tw.Teehistorian
